@@ -128,5 +128,5 @@ Qed.
 End Eval.
 
 (** the exact rational instance used for in-Coq evaluation (rational fragment: no function symbols) *)
-Definition qinv (x : Q) : option Q := if Qeq_bool x 0 then None else Some (/ x)%Q.
-Definition qeval := eval Q (fun q => q) Qplus Qmult qinv 1%Q (fun _ _ => None).
+Definition qinv (x : Q) : option Q := if Qeq_bool x 0 then None else Some (Qred (/ x))%Q.
+Definition qeval := eval Q (fun q => q) (fun a b => Qred (a + b)) (fun a b => Qred (a * b)) qinv 1%Q (fun _ _ => None).
